@@ -198,22 +198,24 @@ def fp_sites(gb):
     sites = []
     cur = None
     n = 0
+    funcs = set()
     for line in r.stdout.decode(errors="replace").splitlines():
         m = FUNC_RE.match(line)
         if m:
             cur = m.group(2)
+            funcs.add(cur)
             n = 0
             continue
         m = CALL_RE.match(line)
         if m and cur:
             n += 1
             sites.append((cur, n, m.group(1).strip()))
-    return sites
+    return sites, funcs
 
 
 def restrict_fp(q, gb, wd):
     """Apply function-pointer restrictions.  Returns (new_gb, table)."""
-    sites = fp_sites(gb)
+    sites, funcs = fp_sites(gb)
     table = []
     restr = {}
     for (fn, n, expr) in sites:
@@ -225,6 +227,8 @@ def restrict_fp(q, gb, wd):
                 break
         if targets is None:
             targets = q.fp_default
+        if targets is not None:
+            targets = [t for t in targets if t in funcs] or None
         label = "%s.function_pointer_call.%d" % (fn, n)
         table.append({"site": label, "expr": expr, "targets": targets})
         if targets is not None:
@@ -283,8 +287,9 @@ def parse_cbmc_json(path):
 
 
 def trace_inputs(trace):
-    """Extract the sequence of harness inputs (value, name guess) from a trace."""
-    ins = []
+    """Extract harness inputs from a trace: list of (index, value, name guess)."""
+    ins = {}
+    order = []
     pending = None
     for s in trace:
         if s.get("stepType") != "assignment":
@@ -292,7 +297,8 @@ def trace_inputs(trace):
         loc = s.get("sourceLocation", {}) or {}
         fn = loc.get("function")
         lhs = s.get("lhs", "")
-        if fn == "v_in_raw" and lhs == "v":
+        m = re.match(r"V_LOG\[(\d+)[a-zA-Z]*\]$", lhs)
+        if m and fn == "v_in_raw":
             val = s.get("value", {})
             b = val.get("binary")
             if b is not None:
@@ -300,17 +306,21 @@ def trace_inputs(trace):
             else:
                 d = re.sub(r"[uUlL]+$", "", str(val.get("data", "0")))
                 v = int(d, 0)
-            pending = [v, None]
-            ins.append(pending)
+            k = int(m.group(1))
+            if k not in ins:
+                order.append(k)
+            pending = [k, v, None]
+            ins[k] = pending
             continue
-        if pending is not None and fn != "v_in_raw" and pending[1] is None:
-            if lhs.startswith("return_value") or lhs.startswith("goto_symex") or "$tmp" in lhs:
+        if pending is not None and fn not in ("v_in_raw", "v_in_range", "v_in_i8", "v_in_i16", "v_in_i32",
+                                               "v_in_i64", "v_in_double", "v_in_float") and pending[2] is None:
+            if lhs.startswith("return_value") or lhs.startswith("goto_symex") or "$tmp" in lhs or lhs in ("v", "k"):
                 continue
-            pending[1] = lhs
-    return ins
+            pending[2] = lhs
+    return [tuple(ins[k]) for k in sorted(order)]
 
 
-def run_cbmc(q, gb, wd, tag, witness, tier_caps, want_trace):
+def run_cbmc(q, gb, wd, tag, witness, tier_caps, want_trace, prop_name=None):
     timeout = q.timeout or tier_caps["timeout"]
     mem = q.mem_gb or tier_caps["mem_gb"]
     cmd = ["cbmc", gb, "--function", q.func, "--json-ui"]
@@ -321,6 +331,8 @@ def run_cbmc(q, gb, wd, tag, witness, tier_caps, want_trace):
         cmd += BASE_FLAGS
         if want_trace:
             cmd += ["--trace", "--stop-on-fail"]
+        if prop_name:
+            cmd += ["--property", prop_name]
     us = ",".join("%s:%d" % (k, v) for k, v in q.unwind.items())
     if us:
         cmd += ["--unwindset", us]
@@ -463,16 +475,20 @@ def native_replay(q, wd, extra_defs, replay_file):
     return True, "native exit %d\n%s" % (r.returncode, txt[-2500:])
 
 
+CURRENT_TIER = {"v": "quick"}
+
+
 def write_replay_file(prop, q, tag, extra_defs, inputs, why):
     d = os.path.join(VERIF, "replays", prop)
     os.makedirs(d, exist_ok=True)
     p = os.path.join(d, "%s.%s.in" % (q.name, tag))
     with open(p, "w") as f:
         f.write("# property=%s query=%s\n" % (prop, q.name))
+        f.write("# tier=%s\n" % CURRENT_TIER["v"])
         f.write("# defines=%s\n" % json.dumps(extra_defs))
-        f.write("# failing=%s\n" % (why or "").replace("\n", " "))
-        for (v, n) in inputs:
-            f.write("# %s\n%d\n" % (n or "?", v))
+        f.write("# failing=%s\n" % (why or "").replace("\n", " ")[:300])
+        for (k, v, n) in inputs:
+            f.write("%d %d # %s\n" % (k, v, n or "?"))
     return p
 
 
@@ -521,25 +537,47 @@ def job(prop, q, variant, tier_caps, known_regions):
             res.update(status="ERROR", why=str(e))
             return res
         r = run_cbmc(q, gb, wd, "1", kind == "witness", tier_caps, False)
-        if r["status"] == "FAILED" and kind != "witness":
-            # second run for a trace of the first failing check
-            r2 = run_cbmc(q, gb, wd, "2", False, tier_caps, True)
-            if r2["status"] == "FAILED" and "inputs" in r2:
-                r["inputs"] = r2["inputs"]
-                r["trace_property"] = r2.get("trace_property")
-                r["trace_description"] = r2.get("trace_description")
-                r["wall_s"] += r2["wall_s"]
         res.update(r)
         res["defs"] = defs
-        if r["status"] == "FAILED" and kind in ("main", "kf") and "inputs" in r:
-            tag = "main" if kind == "main" else "kf-" + variant[1]
-            rp = write_replay_file(prop, q, tag, defs, r["inputs"],
-                                   "%s: %s" % (r.get("trace_property"), r.get("trace_description")))
-            res["replay_file"] = rp
-            if q.replay:
+        if r["status"] == "FAILED" and kind != "witness":
+            descs = [(f["property"], f["description"] or "") for f in r.get("failed", [])]
+            if descs and all(UB_ONLY_PAT.search(d) for (_, d) in descs):
+                res["status"] = "PASSED_UB"
+                return res
+
+            def prio(pd):
+                p, d = pd
+                if UB_ONLY_PAT.search(d):
+                    return 9
+                if ".assertion." in (p or "") and not p.startswith("v_in_raw"):
+                    return 0
+                if "dereference failure" in d or "bounds" in d or "free" in d or "leak" in d:
+                    return 1
+                return 2
+            cands = sorted(descs, key=prio)
+            tried = 0
+            res["replayed"] = None
+            for (pn, pd) in cands:
+                if prio((pn, pd)) == 9 or tried >= 3:
+                    break
+                tried += 1
+                r2 = run_cbmc(q, gb, wd, "t%d" % tried, False, tier_caps, True, prop_name=pn)
+                res["wall_s"] = res.get("wall_s", 0) + r2.get("wall_s", 0)
+                if r2["status"] != "FAILED" or "inputs" not in r2:
+                    continue
+                tag = ("main" if kind == "main" else "kf-" + variant[1]) + (".%d" % tried if tried > 1 else "")
+                rp = write_replay_file(prop, q, tag, defs, r2["inputs"], "%s: %s" % (pn, pd))
+                res["inputs"] = r2["inputs"]
+                res["replay_file"] = rp
+                res["trace_property"] = pn
+                res["trace_description"] = pd
+                if not q.replay:
+                    break
                 ok, txt = native_replay(q, wd, defs, rp)
                 res["replayed"] = ok
                 res["replay_log"] = txt
+                if ok:
+                    break
         return res
     except Exception as e:  # noqa
         import traceback
@@ -575,6 +613,7 @@ UB_ONLY_PAT = re.compile(r"pointer (arithmetic|relation)|pointer_arithmetic|poin
 
 def check_property(prop, tier, only=None, keep=False):
     t0 = time.time()
+    CURRENT_TIER["v"] = tier
     seed = int(os.environ.get("VERIF_SEED", "0") or 0)
     mod = load_prop(prop)
     queries = mod.queries(tier)
@@ -583,7 +622,7 @@ def check_property(prop, tier, only=None, keep=False):
     caps = dict(TIERS[tier])
     known = [k for k in load_known() if k.get("property") == prop]
     known_regions = {k["region"]: k for k in known if k.get("status") == "known"}
-    fixed_regions = {k["region"]: k for k in known if k.get("status") == "fixed"}
+    fixed_regions = {k["region"]: k for k in known if k.get("status") == "fixed" and k.get("region")}
     jobs = []
     for q in queries:
         jobs.append((q, ("main",)))
@@ -632,7 +671,7 @@ def check_property(prop, tier, only=None, keep=False):
                 witness_ok.setdefault(qn, []).append(True)
                 if r.get("inputs") is not None and len(samples) < 40:
                     samples.append({"query": qn, "variant": r["variant"],
-                                    "witness_inputs": [[n or "?", v] for (v, n) in r["inputs"][:48]]})
+                                    "witness_inputs": [[n or "?", v] for (k, v, n) in r["inputs"][:48]]})
             elif st == "PASSED":
                 witness_ok.setdefault(qn, []).append(False)
                 unusable.append("%s %s: witness not reachable (vacuous harness)" % (qn, r["variant"]))
@@ -644,6 +683,12 @@ def check_property(prop, tier, only=None, keep=False):
         elif kind == "main":
             if st == "PASSED":
                 passed_main.add(qn)
+            elif st == "PASSED_UB":
+                ub_only.append({"query": qn, "failed": r.get("failed")})
+                if getattr(mod, "UB_IS_VIOLATION", False):
+                    violations.append(r)
+                else:
+                    passed_main.add(qn)
             elif st == "INCONCLUSIVE":
                 inconclusive.append("%s: %s" % (qn, r.get("why")))
             elif st == "FAILED":
@@ -667,8 +712,10 @@ def check_property(prop, tier, only=None, keep=False):
         elif kind == "kf":
             rg = r["variant"].split(":")[1]
             k = known_regions[rg]
-            if st == "FAILED":
+            if st in ("FAILED", "PASSED_UB") and (st == "FAILED" or False):
                 kf_lines.append("KNOWN-FINDING: property=%s %s %s" % (prop, k["id"], k["what"]))
+            elif st == "PASSED_UB":
+                kf_lines.append("KNOWN-FINDING-STALE: property=%s %s no longer fails inside its region" % (prop, k["id"]))
             elif st == "PASSED":
                 kf_lines.append("KNOWN-FINDING-STALE: property=%s %s no longer fails inside its region" % (prop, k["id"]))
             elif st == "INCONCLUSIVE":
@@ -692,7 +739,7 @@ def check_property(prop, tier, only=None, keep=False):
     if not samples:
         samples = [{"note": "no witness counterexample available"}]
     for v in violations:
-        samples.append({"query": v["query"], "violation_inputs": [[n or "?", x] for (x, n) in (v.get("inputs") or [])[:64]],
+        samples.append({"query": v["query"], "violation_inputs": [[n or "?", x] for (k, x, n) in (v.get("inputs") or [])[:64]],
                         "failed": v.get("failed", [])[:5]})
     ev = {
         "property_id": prop,
@@ -761,7 +808,12 @@ def do_replay(prop, path):
         if m:
             defs = json.loads(m.group(1))
     mod = load_prop(prop)
-    for tier in ("thorough", "quick"):
+    tiers = ["quick", "thorough"]
+    for l in head:
+        m = re.match(r"# tier=(\S+)", l)
+        if m:
+            tiers = [m.group(1)]
+    for tier in tiers:
         for q in mod.queries(tier):
             if q.name == qn:
                 wd = tempfile.mkdtemp(prefix="verif-replay-")
